@@ -17,6 +17,9 @@ struct Args {
     replay: Option<PathBuf>,
     child: bool,
     trace: bool,
+    /// a libFuzzer input to be turned into a replay file and replayed
+    fuzz_input: Option<PathBuf>,
+    part: Option<String>,
 }
 
 fn parse_args() -> Result<Args, String> {
@@ -35,6 +38,8 @@ fn parse_args() -> Result<Args, String> {
     let mut replay = None;
     let mut child = false;
     let mut trace = false;
+    let mut fuzz_input = None;
+    let mut part = None;
     while let Some(a) = it.next() {
         match a.as_str() {
             "--tier" => {
@@ -54,6 +59,8 @@ fn parse_args() -> Result<Args, String> {
                     .map_err(|e| e.to_string())? as u64
             }
             "--replay" => replay = Some(PathBuf::from(it.next().ok_or("--replay needs a file")?)),
+            "--fuzz-input" => fuzz_input = Some(PathBuf::from(it.next().ok_or("--fuzz-input needs a file")?)),
+            "--part" => part = Some(it.next().ok_or("--part needs a name")?),
             "--child" => child = true,
             "--trace" => trace = true,
             other => return Err(format!("unknown argument {}", other)),
@@ -67,6 +74,8 @@ fn parse_args() -> Result<Args, String> {
         replay,
         child,
         trace,
+        fuzz_input,
+        part,
     })
 }
 
@@ -179,6 +188,93 @@ fn replay_in_child(id: &str, file: &Path, timeout: Duration) -> ChildEnd {
     }
 }
 
+/// A libFuzzer artifact is never reported directly: it becomes a replay file, and the replay decides.
+fn fuzz_input_main(args: &Args, input: &Path) -> i32 {
+    let data = match std::fs::read(input) {
+        Ok(d) => d,
+        Err(e) => {
+            eprintln!("cannot read {}: {}", input.display(), e);
+            return 2;
+        }
+    };
+    let replay: PathBuf = if args.id == "C10" {
+        // input of the `decoders` target: first byte = entry point, rest = untrusted bytes
+        if data.is_empty() {
+            return 0;
+        }
+        let entry = data[0] % vh::props::c10::N_ENTRIES as u8;
+        let hex: String = data[1..].iter().map(|b| format!("{:02x}", b)).collect();
+        let doc = serde_json::json!({"property": "C10", "part": "bytes", "expect": "pass", "sig": "", "msg": "libFuzzer input of the decoders target",
+            "case": {"entry": entry, "entry_name": vh::props::c10::entry_name(entry), "bytes_hex": hex}});
+        let dir = Path::new(engine::VERIF_ROOT).join("replays").join("C10");
+        let _ = std::fs::create_dir_all(&dir);
+        let path = dir.join(format!("fail-fuzz-bytes-{:016x}.json", engine::hash_json(&doc)));
+        if std::fs::write(&path, serde_json::to_vec_pretty(&doc).unwrap_or_default()).is_err() {
+            return 2;
+        }
+        path
+    } else {
+        let Some(prop) = vh::props::build(&args.id) else {
+            eprintln!("unknown property {}", args.id);
+            return 2;
+        };
+        let Some(part) = &args.part else {
+            eprintln!("--fuzz-input needs --part");
+            return 2;
+        };
+        match engine::fuzz_input_to_replay(&prop, part, &data) {
+            Ok(p) => p,
+            Err(e) => {
+                eprintln!("note: {}", e);
+                return 0;
+            }
+        }
+    };
+    match replay_in_child_verbose(&args.id, &replay, Duration::from_secs(600)) {
+        ChildEnd::Exit(0) => {
+            let _ = std::fs::remove_file(&replay);
+            0
+        }
+        ChildEnd::Exit(c) => c,
+        ChildEnd::Timeout => {
+            println!("INCONCLUSIVE property={} replay of {} did not finish within 600 s (not a violation)", args.id, replay.display());
+            2
+        }
+        ChildEnd::Signal(sig) => {
+            println!("  failure [crash/signal-{}]: the case generated from the libFuzzer input kills the process", sig);
+            println!("VIOLATION property={} replay={}", args.id, replay.display());
+            1
+        }
+    }
+}
+
+fn replay_in_child_verbose(id: &str, file: &Path, timeout: Duration) -> ChildEnd {
+    let exe = std::env::current_exe().expect("current_exe");
+    let mut cmd = Command::new(exe);
+    cmd.arg(id).arg("--replay").arg(file).arg("--child");
+    let mut child = cmd.spawn().expect("spawn child");
+    let t0 = Instant::now();
+    loop {
+        match child.try_wait() {
+            Ok(Some(st)) => {
+                if let Some(c) = st.code() {
+                    return ChildEnd::Exit(c);
+                }
+                return ChildEnd::Signal(st.signal().unwrap_or(0));
+            }
+            Ok(None) => {
+                if t0.elapsed() > timeout {
+                    let _ = child.kill();
+                    let _ = child.wait();
+                    return ChildEnd::Timeout;
+                }
+                std::thread::sleep(Duration::from_millis(20));
+            }
+            Err(_) => return ChildEnd::Exit(2),
+        }
+    }
+}
+
 fn main() {
     let args = match parse_args() {
         Ok(a) => a,
@@ -187,11 +283,14 @@ fn main() {
             std::process::exit(2);
         }
     };
+    if let Some(input) = &args.fuzz_input {
+        std::process::exit(fuzz_input_main(&args, input));
+    }
     if args.child {
         std::process::exit(child_main(&args));
     }
     let default_timeout = match args.tier {
-        Tier::Quick => 2400,
+        Tier::Quick => 900,
         Tier::Thorough => 8 * 3600,
     };
     let timeout = Duration::from_secs(
